@@ -24,7 +24,7 @@
     (constructor range checks), `newBlockHdr`/`newBlockVal`/`merkleRoot` (the checks of
     `CBlock.__init__`), `Field.apply` vs `applySc` (same field table), and — for the aliasing
     catalogue — `Scalars`/`assemble`.
-  Consequently `refines_value_spec` (and `refines_alias_spec`) can only rule out aliasing, caching and
+  Consequently `refines_value_spec` (and `refines_alias_spec`, stated below as UNPROVED and tied by T2) can only rule out aliasing, caching and
   mutability-class errors: "the heap, with its sharing, its cache slots and its two class variants,
   always answers as if every object were recomputed from its current field values".  The *content* of
   serialisation, identifiers and `==` is the business of C01/C02 (`Model.Wire`, `Model.Ident`), the
